@@ -16,6 +16,12 @@
 (***************************************************************************)
 EXTENDS Naturals, Sequences, FiniteSets, TLC
 
+(* Named deviations of the implementation from the Raft rules.  Dev is the set of deviations that  *)
+(* are switched ON.  AsImplemented is the current tree; {} is the repaired design.                 *)
+CONSTANT Dev
+AsImplemented == {"HardStateSavedOnlyOnDrop", "Prev0ResetsFollowerLog", "GappedAppendRequest",
+                  "VoteResetOnAnyStepDown", "EmptyAEAckReportsWholeLog", "FollowerCommitUsesWholeLog"}
+
 Max(a, b) == IF a > b THEN a ELSE b
 Min(a, b) == IF a < b THEN a ELSE b
 
@@ -33,6 +39,14 @@ HasIdx(log, i) == \E j \in 1..Len(log) : log[j].i = i
 PosOf(log, i) == CHOOSE j \in 1..Len(log) : log[j].i = i
 EntryAt(log, i) == log[PosOf(log, i)]
 TermAt(log, i) == IF HasIdx(log, i) THEN EntryAt(log, i).t ELSE 0      \* 0 = not present
+\* BufferedRaftLog::entry_term answers from the term segments: for any index between the first and
+\* the last index it returns the term of the segment the index falls into, even if the entry itself
+\* is missing (a gap) -- 0 = outside the log
+InRange(log, i) == Len(log) > 0 /\ i >= log[1].i /\ i <= log[Len(log)].i
+SegTermAt(log, i) ==
+  IF ~InRange(log, i) THEN 0
+  ELSE LET S == {j \in 1..Len(log) : log[j].i <= i}
+       IN log[CHOOSE m \in S : \A o \in S : m >= o].t
 Upto(log, i)  == SelectSeq(log, LAMBDA e : e.i <= i)                    \* entries with index <= i
 From(log, i)  == SelectSeq(log, LAMBDA e : e.i >= i)
 Below(log, i) == SelectSeq(log, LAMBDA e : e.i < i)
@@ -76,7 +90,8 @@ VQ_F_Resp(s, q) ==
   [g |-> VoteGrantF(s, q), t |-> s.term, li |-> LastIdx(s.log), lt |-> LastTerm(s.log)]
 
 \* raft.rs BecomeFollower: role change + reset_voted_for; leader bookkeeping is dropped
-StepDown(s) == [s EXCEPT !.role = "F", !.vote = NoVote, !.noop = 0,
+StepDown(s) == [s EXCEPT !.role = "F", !.noop = 0,
+                         !.vote = IF "VoteResetOnAnyStepDown" \in Dev \/ @.t < s.term THEN NoVote ELSE @,
                          !.next = [p \in DOMAIN s.next |-> 0],
                          !.match = [p \in DOMAIN s.match |-> 0]]
 
@@ -127,11 +142,12 @@ RoundOutcomes(s, peers, R) ==
 (***************************************************************************)
 AELegal(s, a) ==
   \/ (a.prev = 0 /\ a.pt = 0)                         \* "virtual log" rule: accepted whatever the log is
-  \/ (HasIdx(s.log, a.prev) /\ TermAt(s.log, a.prev) = a.pt)
+  \/ (InRange(s.log, a.prev) /\ SegTermAt(s.log, a.prev) = a.pt)
 
 \* BufferedRaftLog::filter_out_conflicts_and_append
 FilterAppend(log, a) ==
-  IF a.prev = 0 /\ a.pt = 0 THEN a.ents                \* reset the whole log, then append
+  IF a.prev = 0 /\ a.pt = 0 /\ "Prev0ResetsFollowerLog" \in Dev
+  THEN a.ents                                          \* reset the whole log, then append
   ELSE
     LET last    == LastIdx(log)
         overlap == SelectSeq(a.ents, LAMBDA e : e.i <= last)
@@ -142,7 +158,7 @@ FilterAppend(log, a) ==
                       /\ overlap[Len(overlap)].t = LastTerm(log)
     IN IF safe THEN log \o tail
        ELSE LET D == {j \in 1..Len(a.ents) :
-                        a.ents[j].i > last \/ TermAt(log, a.ents[j].i) # a.ents[j].t}
+                        a.ents[j].i > last \/ SegTermAt(log, a.ents[j].i) # a.ents[j].t}
             IN IF D = {} THEN log
                ELSE LET pos == CHOOSE m \in D : \A o \in D : m <= o
                         di  == a.ents[pos].i
@@ -155,7 +171,9 @@ AE_State(s, a) ==
     LET s1 == [s EXCEPT !.term = a.t, !.vote = [id |-> a.from, t |-> a.t, c |-> TRUE]]
     IN IF ~AELegal(s, a) THEN s1
        ELSE LET nl == IF Len(a.ents) > 0 THEN FilterAppend(s.log, a) ELSE s.log
-                nc == IF a.lc > s.commit THEN Min(a.lc, LastIdx(nl)) ELSE s.commit
+                nc == IF a.lc <= s.commit THEN s.commit
+                      ELSE IF "FollowerCommitUsesWholeLog" \in Dev THEN Min(a.lc, LastIdx(nl))
+                      ELSE Max(s.commit, Min(a.lc, a.prev + Len(a.ents)))
             IN [s1 EXCEPT !.log = nl, !.commit = nc]
 
 \* response: [kind, t, mi, mt, ct, ci]; t = the follower's term BEFORE this request
@@ -163,8 +181,8 @@ AE_Resp(s, a) ==
   IF s.term > a.t
   THEN [kind |-> "higher", t |-> s.term, mi |-> 0, mt |-> s.term, ct |-> 0, ci |-> 0]
   ELSE IF ~AELegal(s, a)
-  THEN IF HasIdx(s.log, a.prev)
-       THEN LET ctm == TermAt(s.log, a.prev)
+  THEN IF InRange(s.log, a.prev)
+       THEN LET ctm == SegTermAt(s.log, a.prev)
             IN [kind |-> "conflict", t |-> s.term, mi |-> 0, mt |-> 0, ct |-> ctm,
                 ci |-> FirstIdxOfTerm(s.log, ctm)]
        ELSE [kind |-> "conflict", t |-> s.term, mi |-> 0, mt |-> 0, ct |-> 0,
@@ -172,8 +190,9 @@ AE_Resp(s, a) ==
   ELSE IF Len(a.ents) > 0
   THEN [kind |-> "ok", t |-> s.term, mi |-> a.ents[Len(a.ents)].i, mt |-> a.ents[Len(a.ents)].t,
         ct |-> 0, ci |-> 0]
-  ELSE [kind |-> "ok", t |-> s.term, mi |-> LastIdx(s.log), mt |-> LastTerm(s.log),
-        ct |-> 0, ci |-> 0]
+  ELSE IF "EmptyAEAckReportsWholeLog" \in Dev
+  THEN [kind |-> "ok", t |-> s.term, mi |-> LastIdx(s.log), mt |-> LastTerm(s.log), ct |-> 0, ci |-> 0]
+  ELSE [kind |-> "ok", t |-> s.term, mi |-> a.prev, mt |-> a.pt, ct |-> 0, ci |-> 0]
 
 \* candidate / leader receiving AppendEntries: step down and let the follower handle it
 HandleAE_State(s, a) ==
@@ -215,7 +234,8 @@ ReqEntries(log, nextp, lastBefore, newEnts, cap) ==
                 THEN LET until == IF lastBefore - nextp >= cap THEN nextp + cap - 1 ELSE lastBefore
                      IN SelectSeq(log, LAMBDA e : e.i >= nextp /\ e.i <= until)
                 ELSE <<>>
-  IN legacy \o newEnts
+      capped == lastBefore >= nextp /\ lastBefore - nextp >= cap
+  IN IF capped /\ "GappedAppendRequest" \notin Dev THEN legacy ELSE legacy \o newEnts
 BuildAE(s, me, p, lastBefore, newEnts, cap) ==
   LET nx == IF s.next[p] = 0 THEN 1 ELSE s.next[p]
       pr == nx - 1
